@@ -217,7 +217,8 @@ def lane_verif(k):
     if not os.path.isdir(v):
         shutil.copytree(VERIF, v, ignore=shutil.ignore_patterns(".git", "seeded", "replays", "work"))
         gm = os.path.join(v, "harness", "go.mod")
-        open(gm, "w").write(open(gm).read().replace("=> /repo", "=> " + worker_repo(100 + k)))
+        txt = open(gm).read().replace("=> /repo", "=> " + worker_repo(100 + k))
+        open(gm, "w").write(txt)
     return v
 
 
@@ -240,6 +241,9 @@ def stage_c(m, k):
 
 def cmd_full(lanes):
     ms = [m for m in load("stageB.jsonl") if m["status"] == "not-observed"]
+    ids = os.environ.get("MUTLAB_IDS")
+    if ids:
+        ms = [m for m in ms if m["id"] in ids.split(",")]
     pool_run(ms, stage_c, lanes, "stageC.jsonl")
 
 
